@@ -572,6 +572,13 @@ func (c *EvalCtx) evalIndex(e *Expr) TVal {
 	w := fr.w
 	base := c.eval(e.Args[0])
 	idx := c.eval(e.Args[1])
+	if base.Type == nil && strings.HasPrefix(base.S, "(Array ") {
+		// ghost array: (Array K V)
+		inner := base.S[len("(Array ") : len(base.S)-1]
+		j := skipSexp(inner, 0)
+		vs := strings.TrimSpace(inner[j:])
+		return TVal{Val: Val{T: fr.def(vs, sel(base.T, idx.T)), S: vs}}
+	}
 	if base.Type == nil {
 		c.errf("index on untyped value")
 		return c.mk(fr.fresh(sInt, "bad"), sInt, nil)
@@ -725,6 +732,34 @@ func (c *EvalCtx) evalCall(e *Expr) TVal {
 		}
 		c.errf("nvisited(): no such map range")
 		return c.mk("0", sInt, ti)
+	case "inloop":
+		// inloop(N): the function returned from inside the body of its N-th loop
+		if v, ok := c.st.cells[cellKey{0, "inloop:" + e.Args[0].Name}]; ok {
+			return c.mk(v.T, sBool, tb)
+		}
+		return c.mk("false", sBool, tb)
+	case "sprintf":
+		// the same term the fmt.Sprintf stub builds: format literal and boxed arguments
+		f0 := c.eval(e.Args[0])
+		var elems []string
+		for _, a := range e.Args[1:] {
+			av := c.eval(a)
+			if av.Type == nil {
+				c.errf("sprintf argument %s is untyped", exprDebug(a))
+				continue
+			}
+			elems = append(elems, fr.makeInterface(c.st, av.Val, av.Type).T)
+		}
+		return c.mk(fr.sprintfTerm(f0.T, elems), sInt, types.Typ[types.String])
+	case "ns":
+		// integer nanoseconds of a time.Time value (the model used by the time stubs)
+		v := c.eval(e.Args[0])
+		if v.Type == nil {
+			c.errf("ns() of untyped value")
+			return c.mk("0", sInt, ti)
+		}
+		w.declFun("time_ns", fmt.Sprintf("(declare-fun time_ns (%s) Int)", w.SortOf(v.Type)))
+		return c.mk("(time_ns "+v.T+")", sInt, ti)
 	case "bitlen":
 		v := c.eval(e.Args[0])
 		return c.mk(sel(fr.heapCur(c.stOf(v), w.heap("BitLen", "(Array Int Int)")), "(s-arr "+v.T+")"), sInt, ti)
